@@ -56,25 +56,32 @@ POut(d, has, resp, neweid, dv) ==
 PPanic(d) == POut(RPanic(d), FALSE, << >>, -1, {})
 Pass(d)   == POut(d, FALSE, << >>, -1, {})
 
-Proc(p, m, O) ==
-    LET d == Dec(p, O) IN
+(* TLC re-evaluates a LET-bound name at every use but evaluates an operator   *)
+(* argument once, so shared sub-results are passed down as arguments.        *)
+ProcAnswer(p, m, O, d, eid) ==
+    POut(d, TRUE,
+         RespPkt(p, m, IF "IID_ZERO" \in O THEN 0 ELSE Iid(p), AnswerBody(p, m, eid)),
+         IF Assigns(p) THEN eid ELSE -1,
+         IF "IID_ZERO" \in O /\ Iid(p) # 0 THEN {"IID_ZERO"} ELSE {})
+
+ProcD(p, m, O, d) ==
     IF d.kind # "ok" THEN Pass(d)
     ELSE IF d.type \in {MT_SPDM, MT_SECURED} THEN
          (IF "PROCESS_SPDM" \in O THEN Pass(RErr(MT_INVALID, "Unknown", 0, {"PROCESS_SPDM"})) ELSE Pass(d))
     ELSE IF d.type # MT_CONTROL THEN Pass(d)
     ELSE IF Len(p) % 256 < 4 /\ "BYTECOUNT_WRAP" \in O THEN PPanic("BYTECOUNT_WRAP")
     ELSE IF Rq(p) = 0 THEN Pass(d)
-    ELSE LET c == Cmd(p) IN
-      IF c = 0 \/ c > 6 THEN (IF "UNSUPPORTED_CMD" \in O THEN PPanic("UNSUPPORTED_CMD") ELSE Pass(d))
-      ELSE IF c = 1 /\ ReqParam(p, 1) \notin {0, 1, 3} THEN
+    ELSE IF Cmd(p) = 0 \/ Cmd(p) > 6 THEN
+           (IF "UNSUPPORTED_CMD" \in O THEN PPanic("UNSUPPORTED_CMD") ELSE Pass(d))
+    ELSE IF Cmd(p) = 1 /\ ReqParam(p, 1) \notin {0, 1, 3} THEN
            (IF "SETEID_OP" \in O THEN PPanic("SETEID_OP") ELSE Pass(d))
-      ELSE IF c = 6 /\ ReqParam(p, 1) >= Len(m.vids) THEN
+    ELSE IF Cmd(p) = 6 /\ ReqParam(p, 1) >= Len(m.vids) THEN
            (IF "SELECTOR_RANGE" \in O THEN PPanic("SELECTOR_RANGE") ELSE Pass(d))
-      ELSE LET iid == IF "IID_ZERO" \in O THEN 0 ELSE Iid(p)
-               dv  == IF "IID_ZERO" \in O /\ Iid(p) # 0 THEN {"IID_ZERO"} ELSE {}
-               eid == EidAfter(p, m)
-           IN  POut(d, TRUE, RespPkt(p, m, iid, AnswerBody(p, m, eid)),
-                    IF Assigns(p) THEN eid ELSE -1, dv)
+    ELSE ProcAnswer(p, m, O, d, EidAfter(p, m))
+
+ProcK(p, m, O, k) == ProcD(p, m, O, DecK(p, O, k))
+
+Proc(p, m, O) == ProcK(p, m, O, PecGood(p))
 
 (* --------------------------- encoders, as-is --------------------------- *)
 (* what the shared packet writer does with a message that does not fit the  *)
